@@ -77,9 +77,26 @@ func damage(file []byte, mode string, msgidx int) (content []byte, readLimit int
 		if at+4 <= len(f) {
 			f[at+2] ^= 0x40 // length prefix grows by 16 KiB: the message cannot be read in full
 		}
-	case "trunc":
+	case "trunc": // two bytes into the message body
 		if at+6 <= len(f) {
 			f = f[:at+6]
+		}
+	case "truncprefix": // exactly after the 4-byte length prefix: the reader sees a clean EOF with a non-empty buffer
+		if at+4 <= len(f) {
+			f = f[:at+4]
+		}
+	case "truncinlen": // inside the length prefix
+		if at+2 <= len(f) {
+			f = f[:at+2]
+		}
+	case "trunctail": // one byte before the end of the message
+		if at+4 <= len(f) {
+			l := int(f[at])<<24 | int(f[at+1])<<16 | int(f[at+2])<<8 | int(f[at+3])
+			if l > 0 && at+4+l <= len(f) {
+				f = f[:at+4+l-1]
+			} else {
+				f = f[:at+4]
+			}
 		}
 	case "undecodable":
 		if at+4 <= len(f) {
@@ -271,7 +288,7 @@ func suiteFaults(o *Out, r *Rng, n int, tier string) {
 		case 2:
 			c.fault = fmt.Sprintf("exists:%d", fb.base)
 		case 3, 4, 5, 6:
-			mode := []string{"badheader", "badlen", "trunc", "undecodable", "ioerr"}[r.Intn(5)]
+			mode := []string{"badheader", "badlen", "trunc", "truncprefix", "truncinlen", "trunctail", "undecodable", "ioerr"}[r.Intn(8)]
 			idx := 0
 			if len(fb.blocks) > 0 {
 				idx = r.Intn(len(fb.blocks))
